@@ -227,13 +227,17 @@ func r174(c *Ctx, r *R) {
 	}
 	s := c.fn(r, "", "Cluster.Shutdown")
 	if s != nil {
-		cl := findCalls(s, false, ModPath+".Consensus).Clean")
-		if len(cl) != 1 {
-			r.Bad("shutdown:clean", s.Pos(), "Cluster.Shutdown has %d consensus.Clean calls: a removed peer must discard its consensus data", len(cl))
+		// in Shutdown or a helper extracted from it: guarded where it is
+		// written, ordered by where Shutdown calls it
+		dcl := findCallsDeep(s, ModPath+".Consensus).Clean")
+		if len(dcl) != 1 {
+			r.Bad("shutdown:clean", s.Pos(), "Cluster.Shutdown has %d consensus.Clean calls: a removed peer must discard its consensus data", len(dcl))
 		} else {
+			cl := []ssa.CallInstruction{dcl[0].Outer}
 			b := cl[0].Block()
-			rem := guardedBy(b, func(g Guard) bool { return gField(g, "removed", true) })
-			rdy := guardedBy(b, func(g Guard) bool { return gField(g, "readyB", true) })
+			ib := dcl[0].Inner.Block()
+			rem := guardedBy(ib, func(g Guard) bool { return gField(g, "removed", true) })
+			rdy := guardedBy(ib, func(g Guard) bool { return gField(g, "readyB", true) })
 			stopped := false
 			for _, sh := range findCalls(s, false, ").Shutdown") {
 				recvIsConsensus := false
@@ -270,6 +274,9 @@ func r174(c *Ctx, r *R) {
 // is returned only after the loop ran out of rows.
 func r172Table(c *Ctx, r *R, w *ssa.Function, order []string) bool {
 	for _, tb := range stepTablesOf(w) {
+		if !tb.Abort {
+			continue
+		}
 		rowOf := map[string]int{}
 		for k, fn := range tb.Fns {
 			for _, p := range order {
